@@ -492,3 +492,102 @@ def _clades(clades, node, tree):
     clades.add(frozenset(current_clade))
     return current_clade
 """
+
+REFERENCE['phyclone.tree.utils.compute_log_S'] = """
+def compute_log_S(child_log_R_values):
+    if len(child_log_R_values) == 0:
+        return 0.0
+    log_D = compute_log_D(child_log_R_values)
+    log_S = _sub_compute_S(log_D)
+    return np.ascontiguousarray(log_S)
+"""
+
+REFERENCE['phyclone.tree.utils._sub_compute_S'] = """
+def _sub_compute_S(log_D):
+    log_S = np.empty_like(log_D)
+    num_dims = log_D.shape[0]
+    for i in range(num_dims):
+        np.logaddexp.accumulate(log_D[i, :], out=log_S[i, :])
+    return log_S
+"""
+
+REFERENCE['phyclone.tree.utils.compute_log_D'] = """
+def compute_log_D(child_log_R_values):
+    num_children = len(child_log_R_values)
+    if num_children == 0:
+        return 0
+    if num_children == 1:
+        return child_log_R_values[0]
+    conv_res = _convolve_two_children(child_log_R_values[0], child_log_R_values[1])
+    for j in range(2, num_children):
+        conv_res = _convolve_two_children(child_log_R_values[j], conv_res)
+    log_D = conv_res
+    return log_D
+"""
+
+REFERENCE['phyclone.tree.utils._convolve_two_children'] = """
+def _convolve_two_children(child_1, child_2):
+    grid_size = child_1.shape[-1]
+    if grid_size < 1000:
+        res_arr = _np_conv_dims(child_1, child_2)
+    else:
+        res_arr = fft_convolve_two_children(child_1, child_2)
+    return res_arr
+"""
+
+REFERENCE['phyclone.tree.utils._np_conv_dims'] = """
+def _np_conv_dims(child_1, child_2):
+    num_dims = child_1.shape[0]
+    child_1_maxes = np.max(child_1, axis=-1, keepdims=True)
+    child_2_maxes = np.max(child_2, axis=-1, keepdims=True)
+    child_1_norm = np.exp(child_1 - child_1_maxes)
+    child_2_norm = np.exp(child_2 - child_2_maxes)
+    grid_size = child_1.shape[-1]
+    arr_list = [np.convolve(child_2_norm[i, :], child_1_norm[i, :])[:grid_size] for i in range(num_dims)]
+    log_D = np.ascontiguousarray(arr_list)
+    log_D[log_D <= 0] = 1e-100
+    log_D = np.log(log_D, order='C', dtype=np.float64, out=log_D)
+    log_D += child_1_maxes
+    log_D += child_2_maxes
+    return log_D
+"""
+
+REFERENCE['phyclone.utils.math.fft_convolve_two_children'] = """
+def fft_convolve_two_children(child_1, child_2):
+    child_1_maxes = np.max(child_1, axis=-1, keepdims=True)
+    child_2_maxes = np.max(child_2, axis=-1, keepdims=True)
+    child_1_norm = np.exp(child_1 - child_1_maxes)
+    child_2_norm = np.exp(child_2 - child_2_maxes)
+    result = fftconvolve(child_1_norm, child_2_norm, axes=[-1])
+    result = result[..., :child_1_norm.shape[-1]]
+    result[result <= 0] = 1e-100
+    result = np.log(result, order='C', dtype=np.float64)
+    result += child_2_maxes
+    result += child_1_maxes
+    return result
+"""
+
+REFERENCE['phyclone.tree.tree.Tree.get_subtree'] = """
+def get_subtree(self, subtree_root):
+    if subtree_root == self._ROOT_NODE_NAME:
+        return self.copy()
+    new = Tree(self.grid_size)
+    subtree_root_idx = self._node_indices[subtree_root]
+    subtree_graph_node_indices = [subtree_root_idx] + list(rx.descendants(self._graph, subtree_root_idx))
+    subtree_graph = self._graph.subgraph(subtree_graph_node_indices, preserve_attrs=True)
+    new_root_idx = new._node_indices[self._ROOT_NODE_NAME]
+    sub_root_idx = -1
+    for sub_idx in subtree_graph.node_indices():
+        payload = subtree_graph[sub_idx]
+        if payload.node_id == subtree_root:
+            sub_root_idx = sub_idx
+            break
+    new._graph.compose(subtree_graph, {new_root_idx: (sub_root_idx, None)})
+    for node_idx in new._graph.node_indices():
+        new._graph[node_idx] = new._graph[node_idx].copy()
+        node = new._graph[node_idx].node_id
+        new._data[node] = list(self._data[node])
+        new._add_node_to_indices(node, node_idx)
+    new.update()
+    return new
+"""
